@@ -25,7 +25,7 @@ type AbsentCase struct {
 	What  string          `json:"what"`
 }
 
-var untidyTexts = []string{" é A-1.", "ES ES-1", "a  b", "-x-", "İß x", "x\ty", "0088:12 34", " A/B.c ", "0088:0099:1234567", " Bizkaia "}
+var untidyTexts = []string{" é A-1.", "ES ES-1", "a  b", "-x-", "İß x", "x\ty", "0088:12 34", " A/B.c ", "0088:0099:1234567", " Bizkaia ", "0088:example.com", "0088:a@example.com"}
 
 // freeStrings lists member paths (at most depth names) below an object node
 // that end in a string not restricted to a fixed list or format.
